@@ -50,53 +50,107 @@ def is_system(f):
     return (getattr(f, "category", None) or "").lower() == "system"
 
 
-def observe(code, offset=0, repeats=2):
-    """Fresh report; `repeats`+1 calls of tifa_analysis(code).  Returns a JSON-able dict; never raises
-    (an escaping exception is recorded under 'raised')."""
+def setup_report(code, filename=None, offset=0):
     from pedal.core.report import MAIN_REPORT
     from pedal.core.commands import contextualize_report
+    from pedal.core.submission import Submission
+    if filename is None:
+        contextualize_report(code)
+    else:
+        contextualize_report(Submission({filename: code}, filename))
+    if offset:
+        MAIN_REPORT.submission.line_offsets[MAIN_REPORT.submission.main_file] = offset
+    return MAIN_REPORT
+
+
+def one_call(report, base, code, bare, first=None):
+    """One tifa_analysis call -> JSON-able record (or {'raised': ...})."""
     from pedal.tifa import tifa_analysis
+    try:
+        t = tifa_analysis() if bare else tifa_analysis(code)
+    except BaseException as e:
+        return None, {"raised": type(e).__name__ + ": " + str(e)[:120] if _safe_str(e) else type(e).__name__,
+                      "raised_class": type(e).__name__}
+    fbs = report.feedback[base:]
+    call = {"success": bool(t.success), "issues": canon_issues(t), "feedback": len(fbs),
+            "system": sum(1 for f in fbs if is_system(f)), "same_object": first is None or t is first}
+    if not t.success:
+        call["error_class"] = type(t.error).__name__
+        call["error"] = (str(t.error)[:160] if _safe_str(t.error) else "<unprintable>")
+        call["where"] = where_of(t.error) if isinstance(t.error, BaseException) else "?"
+        call["parse_failed"] = any(is_system(f) and "Could not parse" in str(getattr(f, "message", "")) for f in fbs)
+    return t, call
+
+
+def _safe_str(e):
+    try:
+        str(e)
+        return True
+    except BaseException:
+        return False
+
+
+def observe(code, offset=0, repeats=2, filename=None, bare=False):
+    """Fresh report; `repeats`+1 calls of tifa_analysis on the same code.  Returns a JSON-able dict; never
+    raises (an escaping exception is recorded under 'raised')."""
     res = {"calls": []}
     try:
-        contextualize_report(code)
-        if offset:
-            MAIN_REPORT.submission.line_offsets[MAIN_REPORT.submission.main_file] = offset
+        report = setup_report(code, filename, offset)
     except BaseException as e:   # not TIFA's business
         res["setup_error"] = type(e).__name__
         return res
-    base = len(MAIN_REPORT.feedback)
+    base = len(report.feedback)
     first = None
     for k in range(repeats + 1):
-        try:
-            t = tifa_analysis(code)
-        except BaseException as e:
-            res["raised"] = type(e).__name__ + ": " + str(e)[:120]
-            res["raised_class"] = type(e).__name__
+        t, call = one_call(report, base, code, bare, first)
+        if t is None:
+            res.update(call)
             return res
-        fbs = MAIN_REPORT.feedback[base:]
-        call = {"success": bool(t.success), "issues": canon_issues(t), "feedback": len(fbs),
-                "system": sum(1 for f in fbs if is_system(f)), "same_object": first is None or t is first}
-        if not t.success:
-            call["error_class"] = type(t.error).__name__
-            call["error"] = str(t.error)[:160]
-            call["where"] = where_of(t.error) if isinstance(t.error, BaseException) else "?"
         res["calls"].append(call)
         if first is None:
             first = t
     return res
 
 
-def fresh_issues(code):
+def observe_history(codes, calls, offset=0, filename=None):
+    """Fresh report whose main code is codes[0]; then tifa_analysis(codes[i]) for i in calls.
+    -> list of call records (stops at the first escaping exception)."""
+    out = []
+    try:
+        report = setup_report(codes[0], filename, offset)
+    except BaseException as e:
+        return [{"setup_error": type(e).__name__}]
+    base = len(report.feedback)
+    for i in calls:
+        t, call = one_call(report, base, codes[i], False)
+        out.append(call)
+        if t is None:
+            break
+    return out
+
+
+def fresh_issues(code, filename=None):
     """A second, independent analysis (new report): determinism."""
-    r = observe(code, repeats=0)
+    r = observe(code, repeats=0, filename=filename)
     return r["calls"][0]["issues"] if r.get("calls") else r
 
 
 def nlines(code):
-    return len(code.split("\n"))
+    """Number of lines as CPython numbers them (universal newlines: \\n, \\r\\n and lone \\r end a line;
+    form feed, \\x1c-\\x1e, \\x85, U+2028/9 do not)."""
+    import re
+    return len(re.split("\r\n|\r|\n", code))
 
 
-def oracle(code, obs, must_complete, determinism=None):
+def norm_message(msg):
+    """Error message reduced to its shape (names and numbers removed): identifies a root cause across programs."""
+    import re
+    msg = re.sub(r"attribute '[^']*'", "attribute *", msg)
+    msg = re.sub(r"\d+", "N", msg)
+    return msg[:70]
+
+
+def oracle(code, obs, must_complete, determinism=None, offset=0):
     """-> list of (signature, what)."""
     bad = []
     if "setup_error" in obs:
@@ -114,15 +168,15 @@ def oracle(code, obs, must_complete, determinism=None):
         bad.append(({"kind": "nondeterministic"}, "a fresh analysis of the same code gave different issues"))
     n = nlines(code)
     for label, name, line in c0["issues"]:
-        if line is not None and not (1 <= line <= n):
+        if line is not None and not (offset + 1 <= line <= offset + n):
             bad.append(({"kind": "line-out-of-range", "label": label},
                         "issue %s located at line %r of a %d-line source" % (label, line, n)))
     if not c0["success"]:
         if c0["system"] != 1:
             bad.append(({"kind": "failure-not-reported"}, "failed analysis attached %d system feedback" % c0["system"]))
         if must_complete:
-            bad.append(({"kind": "analysis-failed", "error": c0["error_class"], "where": c0["where"]},
-                        "introductory-subset program not analysed: %s: %s" % (c0["error_class"], c0["error"])))
+            bad.append(({"kind": "analysis-failed", "error": c0["error_class"], "message": norm_message(c0["error"])},
+                        "introductory-subset program not analysed: %s: %s (in %s)" % (c0["error_class"], c0["error"], c0["where"])))
     return bad
 
 
@@ -151,7 +205,7 @@ MANUAL_BUILTINS = {
 
 RECEIVERS = {
     "StrType": ["'hello world'"], "ListType": ["[3, 1, 2]", "['a', 'b']"], "DictType": ["{'a': 1, 'b': 2}"],
-    "IntType": ["5"], "FloatType": ["2.5"], "BoolType": ["True"], "NumType": ["2.5"], "SetType": ["{1, 2}"],
+    "IntType": ["(5)"], "FloatType": ["2.5"], "BoolType": ["True"], "NumType": ["2.5"], "SetType": ["{1, 2}"],
     "TupleType": ["(1, 2, 1)"], "FileType": ["open('data.txt')"],
 }
 
@@ -479,16 +533,133 @@ class Intro:
             out.append("%sprint(%s)" % (ind, self.expr("str")))
         return out
 
+    # (template lines, {new variable: type}); {t:int} etc. are filled with well-typed expressions,
+    # {v:int} with an existing variable of that type (the template is skipped when there is none), {n} with a
+    # fresh name
+    TEMPLATES = [
+        (["{n} = ({t:int}, {t:str})", "print({n}[0], {n}[1])"], {}),
+        (["{n}, {n2} = {t:int}, {t:int}", "print({n} + {n2})"], {"{n}": "int", "{n2}": "int"}),
+        (["{n} = {{{t:int}, {t:int}}}", "{n}.add({t:int})", "print(len({n}))"], {}),
+        (["{n} = f'{{{t:int}}} and {{{t:str}!r}} {{{t:float}:.2f}}'", "print({n})"], {"{n}": "str"}),
+        (["{n} = '%d items, %s' % ({t:int}, {t:str})"], {"{n}": "str"}),
+        (["{n} = '{{}} {{}}'.format({t:int}, {t:str})"], {"{n}": "str"}),
+        (["{n} = {t:str}.split(',')", "print({n})"], {"{n}": "list_str"}),
+        (["{n} = {t:str}.center(20)", "{n2} = {n}.zfill(30).ljust(40).rjust(50).lstrip().rstrip().swapcase()"], {"{n}": "str", "{n2}": "str"}),
+        (["{n} = {t:str}.endswith('a') or {t:str}.isalnum() or {t:str}.isspace() or {t:str}.istitle()"], {"{n}": "bool"}),
+        (["{n} = {t:str}.rfind('a') + {t:str}.rindex('a')"], {}),
+        (["{n} = {t:str}.splitlines() + {t:str}.rsplit()"], {"{n}": "list_str"}),
+        (["{v:list_int}.sort()", "{v:list_int}.reverse()", "{v:list_int}.insert(0, {t:int})", "{v:list_int}.extend({t:list_int})",
+          "{v:list_int}.remove({t:int})", "{n} = {v:list_int}.pop()", "print({v:list_int}.index({t:int}), {v:list_int}.count({t:int}))"], {}),
+        (["{n} = {v:dict}.get({t:str})", "print({n})", "print({v:dict}.keys(), {v:dict}.values(), {v:dict}.items())"], {}),
+        (["{n} = {v:dict}.pop({t:str})", "{v:dict}.update({{'zz': {t:int}}})", "{n2} = {v:dict}.copy()"], {"{n2}": "dict"}),
+        (["for {n}, {n2} in {v:dict}.items():", "    print({n}, {n2})"], {}),
+        (["for {n} in {v:dict}:", "    print({n}, {v:dict}[{n}])"], {}),
+        (["for {n}, {n2} in enumerate({t:list_str}):", "    print({n}, {n2})"], {}),
+        (["for {n}, {n2} in zip({t:list_int}, {t:list_str}):", "    print({n}, {n2})"], {}),
+        (["for {n} in range(len({t:list_int})):", "    print({n})"], {}),
+        (["for {n} in range({t:int}, {t:int}, 2):", "    print({n})"], {}),
+        (["{n} = int(input('Number? '))", "print({n} + 1)"], {"{n}": "int"}),
+        (["{n} = input()", "print({n}.upper())"], {"{n}": "str"}),
+        (["{n} = float(input('Value: '))"], {"{n}": "float"}),
+        (["while True:", "    {n} = {t:int}", "    if {n} > 3:", "        break"], {}),
+        (["{n} = {t:int} if {t:bool} else {t:int}"], {"{n}": "int"}),
+        (["if 0 < {t:int} < 10:", "    print('small')"], {}),
+        (["{n} = None", "if {n} is None:", "    {n} = {t:int}"], {}),
+        (["{n} = [[1, 2], [3]]", "print({n}[0][1], len({n}))", "for row in {n}:", "    for cell in row:", "        print(cell)"], {}),
+        (["{n} = [{t:int} for {n2} in range(5) if {n2} % 2 == 0]"], {"{n}": "list_int"}),
+        (["{n} = {{'name': {t:str}, 'age': {t:int}}}", "print({n}['name'], {n}['age'])"], {}),
+        (["{n} = [{{'name': 'a', 'n': 1}}, {{'name': 'b', 'n': 2}}]", "for rec in {n}:", "    print(rec['name'], rec['n'] + 1)"], {}),
+        (["import random", "{n} = random.randint(1, {t:int})"], {"{n}": "int"}),
+        (["from math import sqrt, floor", "{n} = floor(sqrt({t:float}))"], {"{n}": "int"}),
+        (["import math", "{n} = math.pi * {t:float} ** 2 + math.ceil({t:float}) + math.floor({t:float})"], {"{n}": "float"}),
+        (["{n} = max({t:int}, {t:int}) + min({t:list_int}) + round({t:float}) + abs({t:int}) + sum({t:list_int})"], {"{n}": "int"}),
+        (["{n} = sorted({t:list_str}, key=len)", "{n2} = list(reversed({t:list_int}))"], {"{n}": "list_str", "{n2}": "list_int"}),
+        (["{n} = list(map(str, {t:list_int}))", "{n2} = list(filter(None, {t:list_int}))"], {"{n2}": "list_int"}),
+        (["{n} = str({t:int}) + str({t:float}) + str({t:bool}) + repr({t:str}) + chr(65) + hex(10) + bin(2) + oct(8)"], {"{n}": "str"}),
+        (["{n} = ord('a') + len({t:str}) + int({t:float}) + int('12') + pow(2, 3) + divmod(7, 2)[0]"], {}),
+        (["{n} = bool({t:int}) and isinstance({t:int}, int) and callable(len) and any({t:list_int}) and all({t:list_int})"], {"{n}": "bool"}),
+        (["{n} = tuple({t:list_int})", "{n2} = set({t:list_int})", "print(type({n}), dict(), list('ab'), {n2})"], {}),
+        (["def {n}(value, times=2, *, sep=' '):", "    \"\"\"Repeat.\"\"\"", "    return sep.join([str(value)] * times)",
+          "print({n}({t:int}), {n}({t:str}, times=3), {n}(1, sep='-'))"], {}),
+        (["def {n}(count):", "    if count <= 0:", "        return 0", "    return count + {n}(count - 1)", "print({n}({t:int}))"], {}),
+        (["def {n}(items):", "    total = 0", "    for item in items:", "        total = total + item", "    return total",
+          "{n2} = {n}({t:list_int})"], {"{n2}": "int"}),
+        (["def {n}():", "    print('hi')", "{n}()", "{n2} = {n}()"], {}),
+        (["def {n}(a, b):", "    return a, b", "{n2} = {n}(1, 2)", "print({n2}[0])"], {}),
+        (["{n} = 'constant'", "def {n2}():", "    return {n} + '!'", "print({n2}())"], {}),
+        (["def main():", "    print({t:str})", "if __name__ == '__main__':", "    main()"], {}),
+        (["{n} = {t:int}", "{n} += 1", "{n} -= 1", "{n} *= 2", "{n} //= 2", "{n} %= 5", "{n} **= 2"], {"{n}": "int"}),
+        (["{n} = {t:float}", "{n} /= 2", "{n} = -{n} + +{n}", "print({n} ** 0.5, {n} // 1, {n} % 2)"], {"{n}": "float"}),
+        (["{n} = {t:list_int} * 2 + [0] * 3", "{n}[0] = {t:int}", "{n}[1:3] = [7, 8]", "print({n}[-1], {n}[::-1], {n}[:2])"], {"{n}": "list_int"}),
+        (["{n} = {t:str}", "for {n2} in {n}:", "    if {n2} in 'aeiou':", "        print({n2})", "    elif {n2} == ' ':", "        continue",
+          "    else:", "        pass"], {}),
+        (["{n} = not {t:bool} and ({t:int} != {t:int} or {t:str} == {t:str}) and {t:int} not in {t:list_int}"], {"{n}": "bool"}),
+        (["assert {t:bool}", "assert {t:int} == {t:int}, 'message'"], {}),
+        (["try:", "    {n} = int({t:str})", "except ValueError:", "    {n} = 0", "print({n})"], {}),
+        (["{n} = (1, 2) + (3,)", "print({n})"], {}),
+        (["{n} = ()", "print(len({n}))"], {}),
+        (["{n} = (1, 2)", "{n2} = {n} + {n}", "print({n2} + {n})"], {}),
+        (["with open('data.txt') as {n}:", "    for {n2} in {n}:", "        print({n2}.strip())"], {}),
+        (["{n} = open('out.txt', 'w')", "{n}.write({t:str})", "{n}.close()"], {}),
+        (["def {n}(): ...", "{n}()"], {}),
+        (["class {n}:", "    def __init__(self, size):", "        self.size = size", "    def area(self):", "        return self.size * self.size",
+          "{n2} = {n}({t:int})", "print({n2}.area(), {n2}.size)"], {}),
+        (["from dataclasses import dataclass", "@dataclass", "class {n}:", "    name: str", "    age: int",
+          "{n2} = {n}('Ada', {t:int})", "print({n2}.name, {n2}.age + 1)"], {}),
+        (["import json", "{n} = json.loads('[1, 2]')", "print(json.dumps({n}))"], {}),
+        (["import string", "print(string.ascii_lowercase, string.digits)"], {}),
+        (["{n} = (5).bit_length() + True.bit_length()", "{n2} = (2.5).is_integer()"], {}),
+    ]
+
+    def template(self, ind):
+        import re
+        r = self.rng
+        for _ in range(10):
+            lines, newvars = r.choice(self.TEMPLATES)
+            text = "\n".join(lines)
+            names = {"{n}": self.fresh("t"), "{n2}": self.fresh("u")}
+            ok = True
+            chosen = {}
+
+            def fill(m):
+                nonlocal ok
+                kind, t = m.group(1), m.group(2)
+                if kind == "t":
+                    return self.expr(t, 1)
+                if t not in chosen:
+                    have = self.of_type(t)
+                    if not have:
+                        ok = False
+                        return "MISSING"
+                    chosen[t] = r.choice(have)
+                return chosen[t]
+            text = re.sub(r"\{(t|v):(\w+)\}", fill, text)
+            if not ok:
+                continue
+            for k, v in names.items():
+                text = text.replace(k, v)
+            text = text.replace("{{", "{").replace("}}", "}")
+            for k, t in newvars.items():
+                self.vars[names[k]] = t
+            return [ind + l for l in text.split("\n")]
+        return [ind + "pass"]
+
     def block(self, ind, depth, in_func=None, in_loop=False):
         out = []
         for _ in range(self.rng.randint(1, 3)):
-            out += self.stmt(ind, depth, in_func, in_loop)
+            if self.rng.random() < 0.25:
+                saved = dict(self.vars)
+                out += self.template(ind)
+                if ind:
+                    self.vars = saved
+            else:
+                out += self.stmt(ind, depth, in_func, in_loop)
         return out
 
     def program(self):
         body = []
         for _ in range(self.rng.randint(2, 8)):
-            body += self.stmt("", 2)
+            body += self.template("") if self.rng.random() < 0.35 else self.stmt("", 2)
         head = ["import %s" % m for m in sorted(self.imports)]
         if "math" in self.imports and self.rng.random() < 0.3:
             head.append("from math import pi")
@@ -504,3 +675,427 @@ def gen_intro(rng):
         except SyntaxError:
             continue
     return "x = 1\nprint(x)\n"
+
+
+# --------------------------------------------------------------------------------------------
+# arbitrary-grammar programs: every statement / expression / pattern kind of the running Python
+
+class Grammar:
+    NAMES = ["a", "b", "c", "data", "total", "f", "g", "Thing", "self", "x1", "résumé", "_"]
+
+    def __init__(self, rng):
+        self.r = rng
+
+    def name(self):
+        return self.r.choice(self.NAMES)
+
+    def const(self):
+        return self.r.choice(["0", "1", "42", "3.5", "1j", "'s'", '"""doc"""', "b'by'", "True", "False", "None", "...",
+                              "'%s %d'", "10**3", "0x1f", "1_000", "''"])
+
+    def expr(self, d):
+        r = self.r
+        if d <= 0:
+            return r.choice([self.name(), self.const()])
+        e = lambda: self.expr(d - 1)
+        k = r.randrange(30)
+        if k == 0:
+            return "(%s %s %s)" % (e(), r.choice(["and", "or"]), e())
+        if k == 1:
+            return "(%s := %s)" % (self.name(), e())
+        if k == 2:
+            return "(%s %s %s)" % (e(), r.choice(["+", "-", "*", "/", "//", "%", "**", "<<", ">>", "|", "^", "&", "@"]), e())
+        if k == 3:
+            return "(%s %s)" % (r.choice(["not", "-", "+", "~"]), e())
+        if k == 4:
+            return "(lambda %s: %s)" % (self.params(lam=True), e())
+        if k == 5:
+            return "(%s if %s else %s)" % (e(), e(), e())
+        if k == 6:
+            return "{%s}" % ", ".join(r.choice(["%s: %s" % (e(), e()), "**%s" % e()]) for _ in range(r.randint(0, 3)))
+        if k == 7:
+            return "{%s}" % ", ".join(e() for _ in range(r.randint(1, 3)))
+        if k == 8:
+            return "[%s %s]" % (e(), self.comp(d))
+        if k == 9:
+            return "{%s %s}" % (e(), self.comp(d))
+        if k == 10:
+            return "{%s: %s %s}" % (e(), e(), self.comp(d))
+        if k == 11:
+            return "(%s %s)" % (e(), self.comp(d))
+        if k == 12:
+            return "(await %s)" % e()
+        if k == 13:
+            return "(yield %s)" % r.choice(["", e()])
+        if k == 14:
+            return "(yield from %s)" % e()
+        if k == 15:
+            ops = ["<", "<=", ">", ">=", "==", "!=", "is", "is not", "in", "not in"]
+            return "(%s %s)" % (e(), " ".join("%s %s" % (r.choice(ops), e()) for _ in range(r.randint(1, 2))))
+        if k in (16, 17):
+            args = [r.choice([e(), "*%s" % e(), "%s=%s" % (self.name(), e()), "**%s" % e()]) for _ in range(r.randint(0, 3))]
+            args.sort(key=lambda a: (a.startswith("**"), "=" in a and not a.startswith("*")))
+            return "%s(%s)" % (r.choice([self.name(), e(), "print", "len", "range", "input", "int", "str", "sorted"]), ", ".join(args))
+        if k == 18:
+            return "f'%s{%s%s%s}%s'" % (r.choice(["", "t "]), self.name(), r.choice(["", "!r", "!s", "!a"]),
+                                      r.choice(["", ":>10", ":.2f", ":{%s}" % self.name()]), r.choice(["", " u"]))
+        if k == 19:
+            return "%s.%s" % (e(), r.choice(["attr", "append", "upper", "x", "items", "real"]))
+        if k in (20, 21):
+            sl = r.choice([e(), "%s:%s" % (r.choice(["", e()]), r.choice(["", e()])), "::%s" % e(), "%s, %s" % (e(), e()), ":"])
+            return "%s[%s]" % (e(), sl)
+        if k == 22:
+            return "[%s]" % ", ".join(r.choice([e(), "*%s" % e()]) for _ in range(r.randint(0, 3)))
+        if k == 23:
+            items = [r.choice([e(), "*%s" % e()]) for _ in range(r.randint(0, 3))]
+            return "(%s%s)" % (", ".join(items), "," if len(items) == 1 else "")
+        if k == 24:
+            return self.const()
+        return self.name()
+
+    def comp(self, d):
+        r = self.r
+        out = []
+        for _ in range(r.randint(1, 2)):
+            out.append("%sfor %s in %s" % (r.choice(["", "", "async "]), self.target(d - 1), self.expr(d - 1)))
+            for _ in range(r.choice([0, 0, 1])):
+                out.append("if %s" % self.expr(d - 1))
+        return " ".join(out)
+
+    def target(self, d):
+        r = self.r
+        k = r.randrange(8)
+        if d <= 0 or k < 4:
+            return self.name()
+        if k == 4:
+            return "%s, %s" % (self.target(d - 1), self.target(d - 1))
+        if k == 5:
+            return "[%s, *%s]" % (self.name(), self.name())
+        if k == 6:
+            return "%s.%s" % (self.name(), "attr")
+        return "%s[%s]" % (self.name(), self.expr(d - 1))
+
+    def params(self, lam=False):
+        r = self.r
+        ann = (lambda n: n) if lam else (lambda n: n + r.choice(["", ": int", ": 'str'", ": list[int]"]))
+        ps = []
+        for i in range(r.randint(0, 2)):
+            ps.append(ann("p%d" % i))
+        if r.random() < 0.2 and ps:
+            ps.append("/")
+        for i in range(r.randint(0, 2)):
+            ps.append(ann("q%d" % i) + ("=%s" % self.const() if r.random() < 0.5 else ""))
+        # defaults must be contiguous at the end
+        seen_default = False
+        fixed = []
+        for p in ps:
+            if "=" in p:
+                seen_default = True
+            elif seen_default and p != "/":
+                p = p + "=0"
+            fixed.append(p)
+        ps = fixed
+        if r.random() < 0.3:
+            ps.append("*args")
+            if r.random() < 0.5:
+                ps.append("kw=1")
+        elif r.random() < 0.15:
+            ps += ["*", "kwo"]
+        if r.random() < 0.3:
+            ps.append("**kwargs")
+        return ", ".join(ps)
+
+    def pattern(self, d):
+        r = self.r
+        k = r.randrange(10)
+        if d <= 0 or k < 2:
+            return r.choice(["0", "'s'", "None", "True", "_", self.name(), "-1", "A.b"])
+        p = lambda: self.pattern(d - 1)
+        if k == 2:
+            return "[%s, *%s]" % (p(), r.choice(["_", "rest"]))
+        if k == 3:
+            return "(%s, %s)" % (p(), p())
+        if k == 4:
+            return "{%s: %s, **%s}" % (r.choice(["'k'", "1"]), p(), "rest")
+        if k == 5:
+            return "%s(%s)" % (r.choice(["Thing", "int", "str"]), r.choice(["", p(), "x=%s" % p()]))
+        if k == 6:
+            return "%s as %s" % (r.choice(["0", "[%s]" % p(), "int()"]), "bound")
+        if k == 7:
+            return "%s | %s" % (r.choice(["0", "'a'", "None"]), r.choice(["1", "'b'", "True"]))
+        return p()
+
+    def block(self, ind, d, n=None):
+        out = []
+        for _ in range(n or self.r.randint(1, 3)):
+            out += self.stmt(ind, d)
+        return out
+
+    def stmt(self, ind, d):
+        r = self.r
+        e = lambda: self.expr(2)
+        k = r.randrange(34) if d > 0 else r.randrange(14)
+        i2 = ind + "    "
+        if k == 0:
+            return [ind + "%s = %s" % (" = ".join(self.target(2) for _ in range(r.randint(1, 2))), e())]
+        if k == 1:
+            return [ind + "%s %s= %s" % (r.choice([self.name(), "%s.attr" % self.name(), "%s[0]" % self.name()]),
+                                      r.choice(["+", "-", "*", "/", "//", "%", "**", "<<", ">>", "|", "^", "&", "@"]), e())]
+        if k == 2:
+            return [ind + "%s: %s%s" % (r.choice([self.name(), "%s.attr" % self.name(), "(%s)" % self.name()]),
+                                      r.choice(["int", "list[str]", "'T'", "dict[str, int]", e()]), r.choice(["", " = " + e()]))]
+        if k == 3:
+            return [ind + e()]
+        if k == 4:
+            return [ind + "pass"]
+        if k == 5:
+            return [ind + "del " + ", ".join(r.choice([self.name(), "%s[0]" % self.name(), "%s.attr" % self.name()]) for _ in range(r.randint(1, 2)))]
+        if k == 6:
+            return [ind + "assert " + e() + r.choice(["", ", " + e()])]
+        if k == 7:
+            return [ind + r.choice(["raise", "raise " + e(), "raise %s from %s" % (e(), e())])]
+        if k == 8:
+            return [ind + r.choice(["import math", "import os.path as osp", "import math, random", "from math import sqrt, pi as PI",
+                                    "from . import sibling", "from ..pkg.mod import *", "import zzz_unknown_module",
+                                    "from collections import *", "import json"])]
+        if k == 9:
+            return [ind + "global " + ", ".join(self.name() for _ in range(r.randint(1, 2)))]
+        if k == 10:
+            return [ind + "nonlocal " + self.name()]
+        if k == 11:
+            return [ind + r.choice(["return", "return " + e(), "break", "continue"])]
+        if k == 12:
+            return [ind + "print(%s)" % e()]
+        if k == 13:
+            return [ind + "type %s%s = %s" % (r.choice(["Alias", "Vec"]), r.choice(["", "[T]", "[T: int, *Ts, **P]"]), r.choice(["int", "list[T]", "int | str"]))]
+        if k in (14, 15):
+            out = [ind + "if %s:" % e()] + self.block(i2, d - 1)
+            for _ in range(r.choice([0, 0, 1, 2])):
+                out += [ind + "elif %s:" % e()] + self.block(i2, d - 1)
+            if r.random() < 0.5:
+                out += [ind + "else:"] + self.block(i2, d - 1)
+            return out
+        if k in (16, 17):
+            out = [ind + "%sfor %s in %s:" % (r.choice(["", "", "", "async "]), self.target(2), e())] + self.block(i2, d - 1)
+            if r.random() < 0.25:
+                out += [ind + "else:"] + self.block(i2, d - 1)
+            return out
+        if k == 18:
+            out = [ind + "while %s:" % e()] + self.block(i2, d - 1)
+            if r.random() < 0.25:
+                out += [ind + "else:"] + self.block(i2, d - 1)
+            return out
+        if k in (19, 20):
+            deco = [ind + "@" + r.choice(["staticmethod", "property", self.name(), "%s(%s)" % (self.name(), e())])
+                    for _ in range(r.choice([0, 0, 0, 1, 2]))]
+            head = "%sdef %s%s(%s)%s:" % (r.choice(["", "", "", "async "]), r.choice(["f", "g", "helper", "__init__"]),
+                                        r.choice(["", "", "[T]"]), self.params(), r.choice(["", " -> int", " -> 'T'", " -> list[str]"]))
+            body = ([i2 + '"""Doc."""'] if r.random() < 0.3 else []) + self.block(i2, d - 1)
+            return deco + [ind + head] + body
+        if k == 21:
+            deco = [ind + "@" + r.choice(["dataclass", self.name()]) for _ in range(r.choice([0, 0, 1]))]
+            head = "class %s%s%s:" % (r.choice(["Thing", "Other"]), r.choice(["", "[T]"]),
+                                      r.choice(["", "()", "(Base)", "(Base, metaclass=Meta)", "(%s)" % e()]))
+            return deco + [ind + head] + self.block(i2, d - 1)
+        if k == 22:
+            items = ", ".join("%s%s" % (e(), r.choice(["", " as " + self.target(1)])) for _ in range(r.randint(1, 2)))
+            return [ind + "%swith %s:" % (r.choice(["", "", "async "]), items)] + self.block(i2, d - 1)
+        if k in (23, 24):
+            star = r.random() < 0.15
+            out = [ind + "try:"] + self.block(i2, d - 1)
+            nh = r.randint(0 if not star else 1, 2)
+            for _ in range(nh):
+                out += [ind + "except%s %s%s:" % ("*" if star else "", r.choice(["ValueError", "(KeyError, IndexError)", "Exception", e()]),
+                                                r.choice(["", " as err"]))] + self.block(i2, d - 1)
+            if nh and not star and r.random() < 0.2:
+                out += [ind + "except:"] + self.block(i2, d - 1)
+            if nh and r.random() < 0.3:
+                out += [ind + "else:"] + self.block(i2, d - 1)
+            if nh == 0 or r.random() < 0.3:
+                out += [ind + "finally:"] + self.block(i2, d - 1)
+            return out
+        if k == 25:
+            out = [ind + "match %s:" % e()]
+            for _ in range(r.randint(1, 3)):
+                out += [i2 + "case %s%s:" % (self.pattern(2), r.choice(["", " if " + e()]))] + self.block(i2 + "    ", d - 1)
+            return out
+        if k == 26:
+            return [ind + "%s = [%s for %s in %s]" % (self.name(), e(), self.name(), e())]
+        if k == 27:
+            return [ind + "%s.%s(%s)" % (self.name(), r.choice(["append", "add", "update", "sort", "pop"]), e())]
+        if k == 28:
+            return [ind + "%s, %s = %s, %s" % (self.name(), self.name(), e(), e())]
+        if k == 29:
+            return [ind + "%s[%s] = %s" % (self.name(), e(), e())]
+        if k == 30:
+            return [ind + "print(%s, end='')  # comment   with separator" % e()]
+        if k == 31:
+            return [ind + "%s = '''multi" % self.name(), "line \x0c string'''"]
+        return [ind + "%s = %s" % (self.name(), e())]
+
+    def program(self):
+        lines = []
+        for _ in range(self.r.randint(1, 6)):
+            lines += self.stmt("", self.r.randint(0, 3))
+        return "\n".join(lines) + "\n"
+
+
+def gen_grammar(rng):
+    """A random program over all language forms that `ast.parse` accepts."""
+    g = Grammar(rng)
+    for _ in range(50):
+        code = g.program()
+        try:
+            ast.parse(code)
+            return code
+        except (SyntaxError, ValueError, RecursionError, MemoryError):
+            continue
+    return "pass\n"
+
+
+# --------------------------------------------------------------------------------------------
+# corpus: the repository's own Python files and the student-code strings inside its tests/examples
+
+def corpus_programs(max_file_bytes=60000):
+    """-> (files: [(path, code)], snippets: [code])"""
+    files, snippets, seen = [], [], set()
+    for top in ("tests", "examples", "pedal"):
+        for dirpath, dirnames, filenames in os.walk(os.path.join(REPO, top)):
+            dirnames.sort()
+            for fn in sorted(filenames):
+                if not fn.endswith(".py"):
+                    continue
+                path = os.path.join(dirpath, fn)
+                try:
+                    with open(path, encoding="utf-8") as fh:
+                        code = fh.read()
+                    tree = ast.parse(code)
+                except Exception:
+                    continue
+                if len(code) <= max_file_bytes:
+                    files.append((os.path.relpath(path, REPO), code))
+                if top in ("tests", "examples"):
+                    for node in ast.walk(tree):
+                        if isinstance(node, ast.Constant) and isinstance(node.value, str):
+                            s = node.value
+                            if len(s) < 8 or len(s) > 3000 or s in seen:
+                                continue
+                            if not any(tok in s for tok in ("=", "print", "def ", "import ", "for ", "if ")):
+                                continue
+                            try:
+                                t = ast.parse(s)
+                            except Exception:
+                                continue
+                            if not t.body or all(isinstance(b, ast.Expr) and isinstance(b.value, (ast.Constant, ast.Name))
+                                                 for b in t.body):
+                                continue
+                            seen.add(s)
+                            snippets.append(s if s.endswith("\n") else s + "\n")
+    return files, snippets
+
+
+class Mutator:
+    """Mutates / recombines corpus programs at the AST level (statement splice, expression swap, operator
+    change, wrapping) and at the text level (line terminators, non-ASCII identifiers)."""
+
+    def __init__(self, rng, snippets):
+        self.r = rng
+        self.snippets = snippets
+        self.stmts, self.exprs = [], []
+        for s in snippets[:400]:
+            try:
+                t = ast.parse(s)
+            except Exception:
+                continue
+            for n in ast.walk(t):
+                if isinstance(n, ast.stmt) and len(self.stmts) < 3000:
+                    self.stmts.append(n)
+                elif isinstance(n, ast.expr) and not isinstance(n, (ast.Starred,)) and len(self.exprs) < 6000:
+                    if isinstance(getattr(n, "ctx", None), (ast.Store, ast.Del)):
+                        continue
+                    self.exprs.append(n)
+
+    def mutate(self):
+        r = self.r
+        import copy
+        for _ in range(30):
+            base = r.choice(self.snippets)
+            try:
+                tree = copy.deepcopy(ast.parse(base))
+            except Exception:
+                continue
+            for _ in range(r.randint(1, 4)):
+                k = r.randrange(6)
+                nodes = list(ast.walk(tree))
+                if k == 0 and self.stmts:       # splice a statement from another program
+                    holders = [n for n in nodes if isinstance(getattr(n, "body", None), list) and n.body]
+                    h = r.choice(holders)
+                    h.body.insert(r.randint(0, len(h.body)), copy.deepcopy(r.choice(self.stmts)))
+                elif k == 1 and self.exprs:     # replace an expression by one from another program
+                    cands = []
+                    for n in nodes:
+                        for f, v in ast.iter_fields(n):
+                            if isinstance(v, ast.expr) and isinstance(getattr(v, "ctx", ast.Load()), ast.Load) and f not in ("annotation", "returns"):
+                                cands.append((n, f))
+                    if cands:
+                        n, f = r.choice(cands)
+                        setattr(n, f, copy.deepcopy(r.choice(self.exprs)))
+                elif k == 2:                    # change an operator
+                    ops = [n for n in nodes if isinstance(n, ast.BinOp)]
+                    if ops:
+                        r.choice(ops).op = r.choice([ast.Add, ast.Sub, ast.Mult, ast.Div, ast.FloorDiv, ast.Mod, ast.Pow])()
+                elif k == 3:                    # wrap the whole program
+                    kind = r.randrange(4)
+                    body = tree.body
+                    if kind == 0:
+                        tree.body = [ast.If(test=ast.Name(id="flag", ctx=ast.Load()), body=body, orelse=[])]
+                    elif kind == 1:
+                        tree.body = [ast.For(target=ast.Name(id="loop_var", ctx=ast.Store()),
+                                             iter=ast.Call(func=ast.Name(id="range", ctx=ast.Load()), args=[ast.Constant(3)], keywords=[]),
+                                             body=body, orelse=[])]
+                    elif kind == 2:
+                        tree.body = [ast.FunctionDef(name="wrapped", args=ast.arguments(posonlyargs=[], args=[], kwonlyargs=[], kw_defaults=[], defaults=[]),
+                                                     body=body, decorator_list=[], type_params=[]),
+                                     ast.Expr(ast.Call(func=ast.Name(id="wrapped", ctx=ast.Load()), args=[], keywords=[]))]
+                    else:
+                        tree.body = [ast.Try(body=body, handlers=[ast.ExceptHandler(type=ast.Name(id="Exception", ctx=ast.Load()), name="err",
+                                                                                   body=[ast.Pass()])], orelse=[], finalbody=[])]
+                elif k == 4:                    # rename a variable everywhere (possibly to a non-ASCII identifier)
+                    names = sorted({n.id for n in nodes if isinstance(n, ast.Name)})
+                    if names:
+                        old, new = r.choice(names), r.choice(["总计", "naïve", "x", "total", "print", "list"])
+                        for n in nodes:
+                            if isinstance(n, ast.Name) and n.id == old:
+                                n.id = new
+                elif k == 5 and len(self.snippets) > 1:   # concatenate with another program
+                    try:
+                        tree.body = tree.body + copy.deepcopy(ast.parse(r.choice(self.snippets)).body)
+                    except Exception:
+                        pass
+            try:
+                ast.fix_missing_locations(tree)
+                code = ast.unparse(tree) + "\n"
+                ast.parse(code)
+                return code
+            except Exception:
+                continue
+        return self.r.choice(self.snippets)
+
+
+def line_terminator_variants(rng, code):
+    """Same program text with unusual line terminators (CPython's tokenizer, str.splitlines and str.split('\\n')
+    disagree on them) placed where the program stays valid: comments and string literals; CRLF/CR line ends."""
+    k = rng.randrange(5)
+    lines = code.split("\n")
+    if k == 0:
+        return "\r\n".join(lines)
+    if k == 1:
+        return "\r".join(lines)
+    sep = rng.choice(["\x0c", "\x0b", "\x1c", "\x1d", "\x1e", "\x85", " ", " "])
+    if k == 2:
+        return "# leading %s comment\n" % sep + code
+    if k == 3:
+        return "banner = 'a%sb%sc'\n" % (sep, sep) + code + "# trailing %s%s" % (sep, sep)
+    i = rng.randrange(len(lines))
+    lines[i] = lines[i] + "  # note%sned" % sep if lines[i].strip() and not lines[i].rstrip().endswith(("'''", '"""', "\\")) else lines[i]
+    return "\n".join(lines)
